@@ -34,8 +34,10 @@ def lib_outcome(bver, vec):
 def main():
     job = json.load(io.open(sys.argv[1], encoding="utf-8"))
     res = []
-    env = dict(os.environ)
+    env0 = dict(os.environ)
     for it in job["items"]:
+        env = dict(env0)
+        env.update(it.get("env", {}))
         args = [unesc(a) for a in it["args"]]
         answers = [unesc(a) for a in it.get("stdin", [])]
         p = subprocess.Popen([sys.executable, "-B", "-m", "cvss.cvss_calculator"] + args, stdin=subprocess.PIPE,
